@@ -2061,7 +2061,10 @@ event_base_loop(struct event_base *base, int flags)
 
 		/* Invoke prepare watchers before polling for events */
 		prepare_info.timeout = tv_p;
-		TAILQ_FOREACH(watcher, &base->watchers[EVWATCH_PREPARE], next) {
+		for (watcher = TAILQ_FIRST(&base->watchers[EVWATCH_PREPARE]);
+		    watcher; watcher = base->watcher_next) {
+			/* The callback may free this watcher or others. */
+			base->watcher_next = TAILQ_NEXT(watcher, next);
 			EVBASE_RELEASE_LOCK(base, th_base_lock);
 			(*watcher->callback.prepare)(watcher, &prepare_info, watcher->arg);
 			EVBASE_ACQUIRE_LOCK(base, th_base_lock);
@@ -2082,7 +2085,10 @@ event_base_loop(struct event_base *base, int flags)
 
 		/* Invoke check watchers after polling for events, and before
 		 * processing them */
-		TAILQ_FOREACH(watcher, &base->watchers[EVWATCH_CHECK], next) {
+		for (watcher = TAILQ_FIRST(&base->watchers[EVWATCH_CHECK]);
+		    watcher; watcher = base->watcher_next) {
+			/* The callback may free this watcher or others. */
+			base->watcher_next = TAILQ_NEXT(watcher, next);
 			EVBASE_RELEASE_LOCK(base, th_base_lock);
 			(*watcher->callback.check)(watcher, &check_info, watcher->arg);
 			EVBASE_ACQUIRE_LOCK(base, th_base_lock);
